@@ -1,9 +1,11 @@
-\* C26 thorough: depth <= 2 single-field schemas and two-field schemas (depth <= 1 x base)
+\* C26 thorough: depth <= 2 single-field schemas and two-field schemas (depth <= 2) x (base kind),
+\* all boundary ints
 SPECIFICATION Spec
 CONSTANTS
   Ints <- AllInts
   Depth = 2
   TwoFields = TRUE
-  Randoms = 4
+  FirstDepth = 2
+  Randoms = 3
 INVARIANTS RoundTrip RequiredRejected Predicted ClassesKnown Emit
 CHECK_DEADLOCK FALSE
